@@ -29,7 +29,7 @@ package listener
 //@   ensures forall k int :: 0 <= k && k < len(l.listeners) ==>
 //@      notifyCount[l.listeners[k].val] == old(notifyCount[l.listeners[k].val]) + ite(selectedV(l.listeners[k], evt), 1, 0)
 //@   ensures forall k int :: 0 <= k && k < len(l.listeners) && selectedV(l.listeners[k], evt) ==> notifyLast[l.listeners[k].val] == evtId(evt)
-//@   modifies notifyCount[ALL], notifyLast[ALL]
+//@   modifies notifyCount[ALL], notifyLast[ALL], notifyLastC[ALL]
 //@   loop #1
 //@   inv forall k int :: {l.listeners[k].val} 0 <= k && k < len(l.listeners) ==>
 //@      notifyCount[l.listeners[k].val] == old(notifyCount[l.listeners[k].val]) + ite(k < $i && selectedV(l.listeners[k], evt), 1, 0)
